@@ -10,3 +10,8 @@ import GettsimVerif.Props.C17
 #print axioms GV.Props.C17.grunds_excludes_others
 #print axioms GV.Props.C17.kiz_only_if_need_covered
 #print axioms GV.Props.C17.bg_in_one_wthh
+#print axioms GV.Props.C17.kiz_pos_eq
+#print axioms GV.Props.C17.kiz_only_if_need_covered_wired
+#print axioms GV.Props.C17.alg2_kiz_exclusive_wired
+#print axioms GV.Props.C17.alg2_pos_need_uncovered_wired
+#print axioms GV.Props.C17.grunds_excludes_others_wired
